@@ -17,7 +17,7 @@ import z3
 from verifx import symx, loader
 from verifx.harness import Obligation
 from verifx.symx import frac_of
-from . import common, layouts, c13, c14
+from . import common, layouts, c13, c14, metmap
 
 PROPERTY = 'C09'
 LEVEL = 'model_checking'
@@ -503,4 +503,5 @@ def obligations(tier):
         o = c13.ReadUamiv(nspec, nz, T, 'hours')
         o.name = 'reader-record-' + o.name
         obs.append(o)
+    obs += metmap.full_obligations(tier)
     return obs
